@@ -3,7 +3,7 @@
 spec   : spec/VEcuModelContract.tla  (a) W0..W4 well-formedness of the offered model,
                                      (b) M0/M1/D1/D2 Mealy determinism with the seed exception E1/E2
          spec/VEcuModel.tla          design of the generator RandomUDSServer.randomize() over all coin flips
-MC     : MC_VEcuModel_{c4,c4mand,c3forced[,c4none]}.cfg exhaustive; dev* are negative controls;
+MC     : MC_VEcuModel_{c4,c3,c3forced[,c4mand,c4none]}.cfg exhaustive; dev* are negative controls;
          x3/x3mand/x4 export every final transition graph of the design (spec -> code)
 binding: code->spec: SEPARATE interpreter processes (different PYTHONHASHSEED, import order, start time,
          construction path, global-random state) build the ECU for seed x arguments, dump the model and the
@@ -25,8 +25,8 @@ from harness import c16_lib as L
 from harness import tlc
 from harness.common import Machinery, Report, quiet_gallia_logging
 
-MC_OK = ["c4", "c4mand", "c3forced"]
-MC_OK_THOROUGH = ["c4none"]
+MC_OK = ["c4", "c3", "c3forced"]
+MC_OK_THOROUGH = ["c4mand", "c4none"]
 MC_NEG = {"devNoBackEdge": {"Inv_W4"}, "devNoAttach": {"Inv_W1"}, "devAttachNoEdge": {"Inv_W3"},
           "devDscNotForced": {"Inv_W3", "Inv_W4"}}
 EXPORTS = {"x3": ([1], [2, 3]), "x3mand": ([1, 3], [2]), "x4": ([1, 4], [2, 3])}
@@ -110,7 +110,7 @@ def _model_check(rep: Report, tier: str) -> None:
 
     def one(c: str) -> tuple[str, Any]:
         return c, tlc.run_tlc("MC_VEcuModel", f"MC_VEcuModel_{c}.cfg", timeout=1500, workers=4,
-                              coverage=(c in ("c4mand", "c3forced")))
+                              coverage=(c in ("c3", "c3forced")))
 
     with ThreadPoolExecutor(max_workers=4) as ex:
         results = list(ex.map(one, oks + list(MC_NEG)))
@@ -312,7 +312,7 @@ def run(tier: str, seed: int) -> Report:
             tcs_all = tcs + extra_cases
         else:
             tcs_all = tcs
-        verd, results = L.validate(tcs_all, per_batch=7 if tier == "quick" else 8, workers=5)
+        verd, results = L.validate(tcs_all, workers=5)
         tlc_results += results
         _judge_cases(rep, chunk, vs, res, verd)
         _stats(rep, chunk, res, vs[0]["name"])
@@ -377,7 +377,7 @@ def run(tier: str, seed: int) -> Report:
     mcases = [dict(c, id=3_000_010 + i) for i, c in enumerate([cases[0], cases[3]])]  # default and p=0.5 arguments
     mres = L.run_children(mcases, mvs, chunk=2, workers=3)
     mt = _build_tcases(mcases, mvs, mres)
-    verd, results = L.validate([m[0] for m in muts] + mt, per_batch=8, workers=2)
+    verd, results = L.validate([m[0] for m in muts] + mt, workers=2)
     for r in results:
         rep.add_tlc(r, "Trace_VEcuModel self-test batch")
     got = [(verd[m["id"]]["a"]["v"], verd[m["id"]]["b"]["v"]) for m, _a, _b in muts]
